@@ -19,6 +19,7 @@ def t3(p):
 class Hist:
     def __init__(self, impl, R):
         self.impl, self.R = impl, R
+        self.tiny = (gen.CHUNK_INDEX is not None and gen.CHUNK_INDEX % 4 == 1)
         self.env = []        # dict(kind, obj, owning)
         self.ops = []        # protocol tokens
         self.log = []        # human-readable
@@ -50,6 +51,8 @@ class Hist:
         return self.R.choice(c) if c else None
 
     def lat(self):
+        if self.tiny:      # the corner of the lattice where CPython hashes collide (hash(-1) == hash(-2)), see harness/gen.py
+            return tuple(F(self.R.choice([-2, -1, -1, 0, 1])) for _ in range(3))
         return tuple(F(self.R.randint(-16, 16), 4) for _ in range(3))
 
     def add(self, kind, obj, owning):
@@ -191,12 +194,16 @@ class Hist:
         self.log.append('%s%d[%d] = %s' % (e['kind'].lower(), i, k, fr(val)))
         return i
 
-    def move(self):
-        i = self.pick(['P', 'P', 'S', 'H', 'G', 'B'])
+    def move(self, i=None):
+        if i is None:
+            i = self.pick(['P', 'P', 'S', 'H', 'G', 'B'])
         if i is None:
             return
         e = self.env[i]
         v = tuple(F(self.R.randint(-8, 8), 4) for _ in range(3))
+        if self.tiny:      # one unit along an axis: the move that turns an object into its hash twin
+            ax = self.R.randrange(3)
+            v = tuple(F(self.R.choice([-1, 1])) if t == ax else F(0) for t in range(3))
         e['obj'].move(self.impl.Vc(v))
         k = e['kind']
         if k == 'P':
@@ -251,6 +258,24 @@ def canon_answer(impl, r):
     return d
 
 
+class Pristine:
+    """client of harness/pristine.py (one server per worker process, started lazily)"""
+    proc = None
+
+    @classmethod
+    def ask(cls, q, A, B):
+        import subprocess, sys, os, json
+        if cls.proc is None or cls.proc.poll() is not None:
+            root = os.path.dirname(os.path.dirname(os.path.dirname(os.path.abspath(__file__))))
+            cls.proc = subprocess.Popen([sys.executable, '-B', '-m', 'harness.pristine'], cwd=root, stdin=subprocess.PIPE, stdout=subprocess.PIPE, text=True, bufsize=1)
+        cls.proc.stdin.write(json.dumps({'q': q, 'a': gen.jsonable(list(A)), 'b': gen.jsonable(list(B))}) + '\n')
+        cls.proc.stdin.flush()
+        line = cls.proc.stdout.readline()
+        if not line:
+            raise RuntimeError('pristine evaluator died')
+        return json.loads(line)['r']
+
+
 def one_history(impl, R):
     h = Hist(impl, R)
     n = R.randint(8, 30)
@@ -272,9 +297,46 @@ def one_history(impl, R):
             elif c < 0.62:
                 target = h.write()
             elif c < 0.72:
-                target = h.move()
+                # query - move - query: binary queries of the object with two partners are asked BEFORE the in-place move (whatever they
+                # memoise is memoised now) and again after it; the later answers are compared with a process that has run nothing else
+                mi = h.pick(['P', 'P', 'S', 'H', 'G', 'B'])
+                partners = [R.randrange(len(h.env)) for _ in range(2)] if mi is not None else []
+                QS = ['intersection', 'in', 'distance', '==']
+
+                def qfn(q, a, b):
+                    return {'intersection': lambda: impl.intersection(a, b), 'in': lambda: a in b, 'distance': lambda: impl.distance(a, b), '==': lambda: a == b}[q]
+                for j in partners:
+                    for q in QS:
+                        impl.call(qfn(q, h.env[mi]['obj'], h.env[j]['obj']))
+                        impl.call(qfn(q, h.env[j]['obj'], h.env[mi]['obj']))
+                target = h.move(mi)
+                from .. import pristine as _pr, compare as _cmp
+                import json as _json
+                for j in partners:
+                    for q in QS:
+                        for (x, y, xi, yi) in ((h.env[mi]['obj'], h.env[j]['obj'], mi, j), (h.env[j]['obj'], h.env[mi]['obj'], j, mi)):
+                            da, db = impl.describe(x), impl.describe(y)
+                            if da[0] == 'other' or db[0] == 'other':
+                                continue
+                            here = _json.loads(_json.dumps(_pr.canon(impl, _cmp, impl.call(qfn(q, x, y)))))
+                            there = Pristine.ask(q, da, db)
+                            if here != there and not (isinstance(there, list) and there and there[0] == 'pristine-error'):
+                                h.problems.append('after %s the answer of %s(%s%d, %s%d), asked before the move as well, is %r; freshly built operands in a process that has run nothing else give %r (operands %s, %s)' % (
+                                    h.log[-1], q, h.env[xi]['kind'].lower(), xi, h.env[yi]['kind'].lower(), yi, here, there, da, db))
             elif c < 0.80:
                 h.dcopy()
+            elif c < 0.83:
+                # objects DERIVED from a composite own their data too: the negated polygon and the object returned by move() of a
+                # deep copy are moved in place; the composite they came from must not notice (checked by the snapshots below)
+                gi = h.pick(['G', 'S', 'H'])
+                if gi is not None:
+                    a_ = h.env[gi]['obj']
+                    v_ = impl.Vc(tuple(F(R.choice([-3, -1, 1, 2])) for _ in range(3)))
+                    if h.env[gi]['kind'] == 'G':
+                        (-a_).move(v_)
+                        (-(-a_)).move(v_)
+                    copy.deepcopy(a_).move(v_).move(v_)
+                    h.log.append('derived objects of %s%d moved' % (h.env[gi]['kind'].lower(), gi))
             else:
                 qinfo = h.query()
         except Exception as e:
@@ -305,6 +367,18 @@ def one_history(impl, R):
             again = canon_answer(impl, impl.call(fn))
             if again != first:
                 h.problems.append('the answer of %s(%s%d, %s%d) changed after unrelated queries: %r then %r' % (q, h.env[i]['kind'].lower(), i, h.env[j]['kind'].lower(), j, first, again))
+            elif q not in ('hash', 'repr'):
+                # ... nor on anything else that happened in this process: the same query on freshly built operands with the same
+                # defining data, evaluated in a process that has run no other library call (harness/pristine.py)
+                from .. import pristine as _pr, compare as _cmp
+                da, db = impl.describe(a), impl.describe(b)
+                if da[0] != 'other' and db[0] != 'other':
+                    here = _pr.canon(impl, _cmp, impl.call(fn))
+                    there = Pristine.ask(q, da, db)
+                    import json as _json
+                    if _json.loads(_json.dumps(here)) != there and not (isinstance(there, list) and there and there[0] == 'pristine-error'):
+                        h.problems.append('the answer of %s(%s%d, %s%d) depends on the history: %r here, %r in a process that has run nothing else (operands %s, %s)' % (
+                            q, h.env[i]['kind'].lower(), i, h.env[j]['kind'].lower(), j, here, there, gen.tok(da)[:80] if da[0] != 'V' else da, gen.tok(db)[:80] if db[0] != 'V' else db))
         if h.problems:
             break
     obs = [(e['kind'], h.leaves(e)) for e in h.env]
